@@ -1,5 +1,26 @@
 (* FsmTie3b.v - rtr_receive_pdu, translated (Gen/GeneratedFsm3.v), against the model's receive_pdu on the paths AFTER a
-   header has been read - for arbitrary worlds.  Continues Rtr/FsmTie3.v (interp3, as_recv). *)
+   header has been read - for arbitrary worlds.  Continues Rtr/FsmTie3.v (interp3, as_recv).
+
+   Common hypotheses: c_RTR_MAX_PDU_LEN <= len (the C's assert), 8 <= zlen m (the buffer; c_RTR_MAX_PDU_LEN <= zlen m for
+   the payload phase), 0 <= st (sk w) < 2^32, st (sk w) <> c_RTR_SHUTDOWN, Tm w (byte-valued input), and
+   tr_recv_all 8 t w = Ok (inr h) w1 (the header has been read).  Conclusion, every time:
+     interp3 fuel (rtr_receive_pdu_gen m (Some 0) len t (sock_store (sk w))) [] w = Some (as_recv (fun _ => st_list m 0 h) (receive_pdu t) w)
+   (result code, final socket fields, final world with its trace; the buffer holds the header as received).
+   PROVED:
+     recv_too_small         get32 h 4 < 8: Corrupt Data report with the too-small text, RTR_ERROR_FATAL;
+     recv_too_big           get32 h 4 > RTR_MAX_PDU_LEN: the same with the snprintf text;
+     recv_version_mismatch  lengths fine, 0 <= version < 2^32: first PDU of a connection -> has_received_pdus and the
+                            live downgrade 1 -> 0 (after_first); then another version than the socket's, not an Error
+                            Report: Unexpected Protocol Version report, RTR_ERROR, state unchanged;
+     recv_header_phase      the three together (header_rejects);
+     recv_payload_fails     header accepted, 8 < get32 h 4, the payload read yields a negative code: the transport
+                            part of the error label (as recv_header_fails of FsmTie3, now with the updated socket).
+   NOT PROVED for arbitrary worlds (checked on the closed scripts of FsmTie3 only): payload read succeeds - the
+   rtr_pdu_check_size rejection (3) and the success path with the footer conversion (4); and the header-only PDU
+   (get32 h 4 = 8: no payload read) which goes straight to those.  What is missing: rtr_pdu_check_size_gen on the PADDED
+   buffer with a header_host header (CheckSizeTie.check_size_translated is about the unpadded to_host p, and
+   to_host differs from header_host on Router Key PDUs), rtr_pdu_header_to_network_byte_order_gen restoring the header,
+   FooterTie.footer_translated lifted to the padded buffer.  Hence no combined receive_pdu_tie yet. *)
 From Coq Require Import ZifyBool.
 From RtrV Require Import Base.CSem Base.Mem Base.MemW Base.Eff Base.EffMem Gen.Generated Gen.GeneratedMem Gen.GeneratedMemW
   Gen.GeneratedFsm3 Rtr.RtrModel Rtr.RelFrame Rtr.ExpiryTac Rtr.SyncSets Rtr.ExpiryFrames Rtr.ConvergeStutter
@@ -337,8 +358,125 @@ Proof.
   all: rewrite Hmis; rewrite !bind_assoc; apply xbind_some; intros r w2 E2; rewrite store_after_plain.
   all: rewrite ret_leaf; reflexivity.
 Qed.
+
+(* ---------- the payload phase ---------- *)
+Lemma after_first_st s hh : st (after_first s hh) = st s.
+Proof. unfold after_first. destruct (has_recv s); [reflexivity|]. destruct (_ && _); reflexivity. Qed.
+
+Lemma transport_leaf buf0 M w' :
+  interp3 fuel (ECall "rtr_change_socket_state" [wrapu 32 8] (sock_store (sk w'))
+                 (fun _ s => ECall "c2v_ret_buffer" M s (fun _ s' => ERet (-1) s'))) buf0 w' =
+  Some (bind (change_state c_RTR_ERROR_TRANSPORT) (fun _ w2 => Ok (-1, sock_store (sk w2), M) w2) w').
+Proof.
+  change (wrapu 32 8) with c_RTR_ERROR_TRANSPORT. rewrite i3_change_state, with_sk_store, store_after_plain, i3_ret_buffer.
+  cbn [interp3]. rewrite with_sk_store. unfold bind. rewrite change_state_eq'. reflexivity.
+Qed.
+
+Hypothesis Hmx : c_RTR_MAX_PDU_LEN <= zlen m.
+Hypothesis Hver : negb (nthb h 0 =? version (after_first (sk w) h)) && negb (nthb h 1 =? c_ERROR) = false.
+
+Theorem recv_payload_fails c w2 : 8 < get32 h 4 ->
+  tr_recv_all (get32 h 4 - 8) c_RTR_RECV_TIMEOUT (with_sk w1 (after_first (sk w) h)) = Ok (inl c) w2 -> c < 0 ->
+  interp3 fuel (rtr_receive_pdu_gen m (Some 0) len t (sock_store (sk w))) [] w =
+  Some (as_recv (fun _ => st_list m 0 h) (receive_pdu t) w).
+Proof.
+  intros Hrem E2 Hc.
+  destruct (header_facts _ _ _ _ HT E) as (Hz & Hb & Hk & HT1).
+  rewrite (as_recv_rest _ t w h w1 Hs E Hk Hlen).
+  destruct (list8 h Hz) as (a & b & c0 & d & e & f & g & i & Eh).
+  destruct (list8r m Hm) as (m0 & m1 & m2 & m3 & m4 & m5 & m6 & m7 & mr & Em).
+  rewrite Em in Hmx |- *. clear Em.
+  rewrite Eh in E, Hb, Hlen, Hver, E2, Hrem |- *.
+  walk_header Hl Hm Hr Hs E Hb.
+  pose proof (get32_range [a; b; c0; d; e; f; g; i] 4 Hb) as Hg.
+  assert (HM : c_RTR_MAX_PDU_LEN = 3248) by reflexivity.
+  rewrite !(wrapu64_small (get32 _ 4)) by lia.
+  replace (get32 [a; b; c0; d; e; f; g; i] 4 <? 8) with false by lia. cbv iota.
+  replace (get32 [a; b; c0; d; e; f; g; i] 4 >? c_RTR_MAX_PDU_LEN) with false by lia. cbv iota.
+  walk_first a b [c0; d; e; f; g; i] Hk Hb.
+  all: set (S1 := after_first (sk w) [a; b; c0; d; e; f; g; i]) in *.
+  all: rewrite sg_version.
+  all: assert (Ha : 0 <= a < 256) by (inversion Hb; assumption).
+  all: assert (Hbb : 0 <= b < 256) by (inversion Hb as [|? ? ? Hb2]; inversion Hb2; assumption).
+  all: rewrite !(wrapu32_id a) by (change (2 ^ 32) with 4294967296; lia).
+  all: rewrite !(wraps32_small b) by lia.
+  all: rewrite ?Bool.implb_true_r; cbn [eguard].
+  all: change (nthb [a; b; c0; d; e; f; g; i] 0) with a in Hver; change (nthb [a; b; c0; d; e; f; g; i] 1) with b in Hver;
+       change c_ERROR with 10 in Hver.
+  all: rewrite Hver; cbv iota.
+  all: cbv zeta.
+  all: rewrite (wrapu64_small (get32 _ 4 - 8)) by lia.
+  all: rewrite (wrapu32_id (get32 _ 4 - 8)) by (change (2 ^ 32) with 4294967296; lia).
+  all: change (wrapu 32 0) with 0; replace (get32 [a; b; c0; d; e; f; g; i] 4 - 8 >? 0) with true by lia; cbv iota.
+  all: rewrite sg_state; unfold S1 at 1; rewrite after_first_st; fold S1.
+  all: rewrite wrapu32_id by exact Hr; change (wrapu 32 9) with c_RTR_SHUTDOWN.
+  all: replace (st (sk w) =? c_RTR_SHUTDOWN) with false by lia; cbv iota.
+  all: rewrite (wrapu64_small (get32 _ 4 - 8)) by lia.
+  all: cbn [ptr_add]; change (0 + 8) with 8.
+  all: match goal with |- context [eguard (st_ok ?M ?p ?n) _] =>
+         replace (st_ok M p n) with true by (unfold st_ok, ld_ok; unfold zlen in Hmx; cbn [List.length] in Hmx |- *; lia) end.
+  all: cbn [eguard].
+  all: change (wraps 64 c_RTR_RECV_TIMEOUT) with c_RTR_RECV_TIMEOUT.
+  all: rewrite i3_recv_all, store_sock_store; unfold xbind; rewrite E2; rewrite store_after_plain.
+  all: cbn [nth skipn]; rewrite firstn_nil.
+  all: change (mwrite ?M (Some 8) []) with M.
+  all: replace (c <? 0) with true by lia; cbv iota.
+  all: unfold recv_rest; cbv zeta; rewrite bind_assoc, bind_get_sk; cbn [sk with_sk]; fold S1.
+  all: change (nthb [a; b; c0; d; e; f; g; i] 0) with a; change (nthb [a; b; c0; d; e; f; g; i] 1) with b; change c_ERROR with 10.
+  all: rewrite Hver.
+  all: replace (get32 [a; b; c0; d; e; f; g; i] 4 - 8 >? 0) with true by lia.
+  all: rewrite !bind_assoc, bind_get_sk; cbn [sk with_sk]; unfold S1 at 1; rewrite after_first_st; fold S1.
+  all: replace (st (sk w) =? c_RTR_SHUTDOWN) with false by lia.
+  all: fold (with_sk w1 S1).
+  all: unfold bind at 1; rewrite E2; cbv beta iota.
+  all: unfold recv_err; change (- (1)) with (-1).
+  all: destruct (c =? -1); [rewrite transport_leaf, bind_assoc; reflexivity|].
+  all: destruct (c =? -2); [rewrite ret_leaf; reflexivity|].
+  all: destruct (c =? -3); [rewrite ret_leaf; reflexivity|].
+  all: destruct (c =? -4); [rewrite ret_leaf; reflexivity|].
+  all: replace (c =? 0) with false by lia; replace (c =? 32) with false by lia; replace (c =? 5) with false by lia.
+  all: replace (c =? 4) with false by lia; replace (c =? 8) with false by lia.
+  all: rewrite fatal_leaf, bind_assoc; reflexivity.
+Qed.
 End VersionPhase.
+
+(* ====================================================================================================== *)
+(* 4. summary theorems                                                                                      *)
+(* ====================================================================================================== *)
+(* (1) everything that is decided on the header alone: too short, too long, wrong version (after the live downgrade
+   of the first PDU of a connection; Error Reports exempt) *)
+Definition header_rejects (s : sock) (h : list byte) : bool :=
+  (get32 h 4 <? 8) || (get32 h 4 >? c_RTR_MAX_PDU_LEN) ||
+  (negb (nthb h 0 =? version (after_first s h)) && negb (nthb h 1 =? c_ERROR)).
+
+Theorem recv_header_phase fuel m len t w h w1 :
+  c_RTR_MAX_PDU_LEN <= len -> 8 <= zlen m -> 0 <= st (sk w) < 2^32 -> st (sk w) <> c_RTR_SHUTDOWN -> Tm w ->
+  0 <= version (sk w) < 2^32 ->
+  tr_recv_all 8 t w = Ok (inr h) w1 -> header_rejects (sk w) h = true ->
+  interp3 fuel (rtr_receive_pdu_gen m (Some 0) len t (sock_store (sk w))) [] w =
+  Some (as_recv (fun _ => st_list m 0 h) (receive_pdu t) w).
+Proof.
+  intros Hl Hm Hr Hs HT HV E Hrej. unfold header_rejects in Hrej.
+  destruct (get32 h 4 <? 8) eqn:E1; [eapply recv_too_small; eauto; lia|].
+  destruct (get32 h 4 >? c_RTR_MAX_PDU_LEN) eqn:E2; [eapply recv_too_big; eauto; lia|].
+  cbn [orb] in Hrej. eapply recv_version_mismatch; eauto. lia.
+Qed.
+
+(* what stage 2 assumes about the buffer (FsmTie2.in_buffer: to_host) and what the function leaves there agree on the
+   header of every PDU that is not a Router Key - in particular on the bytes stage 2 loads (version, type, and the
+   16-bit field of Error Report and Cache Response PDUs) *)
+Lemma header_host_to_host p : nthb p 1 <> c_ROUTER_KEY -> header_host p = to_host p.
+Proof.
+  intros Hk. unfold header_host, to_host.
+  destruct p as [|x0 p]; [reflexivity|]. destruct p as [|x1 p]; [reflexivity|].
+  do 6 (destruct p as [|? p]; [reflexivity|]).
+  change (nthb (x0 :: x1 :: ?r) 1) with x1 in Hk.
+  replace (x1 =? c_ROUTER_KEY) with false by lia. reflexivity.
+Qed.
 
 Print Assumptions recv_too_small.
 Print Assumptions recv_too_big.
 Print Assumptions recv_version_mismatch.
+Print Assumptions recv_header_phase.
+Print Assumptions recv_payload_fails.
+Print Assumptions header_host_to_host.
